@@ -119,12 +119,28 @@ func (f *frame) callCommon(c *ssa.CallCommon, in ssa.Instruction, st *bstate, re
 			done = true
 		}
 	}
-	// 3. havoc
+	// 3. havoc, restricted to the inferred write summary where there is one
 	if !done {
 		pure := f.isPureCallee(c)
+		framed := false
 		if !pure {
-			f.escapeArgs(c, st)
-			f.havocAll(st, name)
+			if fn := c.StaticCallee(); fn != nil && fn.Pkg != nil && f.eng().isRepoPkg(fn.Pkg.Pkg) {
+				if s := f.eng().summary(fn); !s.top {
+					f.havocComps(st, s.comps)
+					framed = true
+					vc.note("inferred frame: call to " + name + " writes only " + fmt.Sprint(len(s.comps)) + " heap components (syntactic, transitive)")
+				}
+			} else if fn != nil {
+				if comps, closed := f.foreignFrame(c); closed {
+					f.havocComps(st, comps)
+					framed = true
+					vc.note("assumed: foreign call " + name + " can only write memory reachable from its arguments (closed types)")
+				}
+			}
+			if !framed {
+				f.escapeArgs(c, st)
+				f.havocAll(st, name)
+			}
 		}
 		for _, lv := range lvs {
 			nv := f.havocValue(st, "esc", lv.ty)
@@ -133,7 +149,7 @@ func (f *frame) callCommon(c *ssa.CallCommon, in ssa.Instruction, st *bstate, re
 		res = f.havocValue(st, f.id+"ret."+shortName(name), resT)
 		if pure {
 			vc.note("assumed pure (no writes to verified state): " + name)
-		} else {
+		} else if !framed {
 			vc.note("havoc: call to " + name + " without contract")
 		}
 	}
@@ -245,6 +261,21 @@ func (f *frame) callMods(in ssa.CallInstruction, mods *modSet, depth int) {
 			}
 		}
 		return
+	}
+	if fn := c.StaticCallee(); fn != nil && fn.Pkg != nil && f.eng().isRepoPkg(fn.Pkg.Pkg) {
+		if s := f.eng().summary(fn); !s.top {
+			for k, v := range s.comps {
+				mods.addAll(k, v)
+			}
+			return
+		}
+	} else if fn != nil {
+		if comps, closed := f.foreignFrame(c); closed {
+			for k, v := range comps {
+				mods.addAll(k, v)
+			}
+			return
+		}
 	}
 	mods.star = true
 }
@@ -447,8 +478,20 @@ func (f *frame) applyContract(fc *FuncC, pkg *types.Package, pnames, rnames []st
 			}
 		}
 	}
+	var sumComps map[string]string
+	if fc.Kind == "func" && !fc.Pure && !fc.HasModifies && !inferred {
+		if cal, ok := in.(ssa.CallInstruction); ok {
+			if fn := cal.Common().StaticCallee(); fn != nil {
+				if s := f.eng().summary(fn); !s.top {
+					sumComps = s.comps
+				}
+			}
+		}
+	}
 	switch {
 	case fc.Pure, inferred:
+	case sumComps != nil:
+		f.havocComps(st, sumComps)
 	case fc.HasModifies:
 		for _, m := range fc.Modifies {
 			f.havocModifies(m, env, st)
